@@ -502,6 +502,22 @@ def r14_panic_forbidden(text, base_line=0):
     return _apply_edits(text, edits), log
 
 
+def r12_enumerate(text, base_line=0):
+    """R12: `for (I, P) in E.iter().enumerate() {` -> `for I in 0..E.len() { let P = &E[I];` (`&x` pattern: `let x = E[I];`).
+    Assumes what `Iterator::enumerate` over a slice iterator guarantees: elements in index order, paired with their index."""
+    log = []
+    pat = re.compile(r"for\s*\(\s*(\w+)\s*,\s*(&?)\s*(\w+)\s*\)\s*in\s*([\w\.\[\]]+?)\.iter\(\)\.enumerate\(\)\s*\{")
+    while True:
+        m = pat.search(text)
+        if not m:
+            return text, log
+        i, amp, p, e = m.groups()
+        bind = "let %s = %s[%s];" % (p, e, i) if amp else "let %s = &%s[%s];" % (p, e, i)
+        new = "for %s in 0..%s.len() { %s" % (i, e, bind)
+        log.append("R12 line %d: `%s` -> `%s`" % (base_line + text.count("\n", 0, m.start()), " ".join(m.group(0).split()), new))
+        text = text[:m.start()] + new + text[m.end():]
+
+
 def r11_deref_ref_operand(text, base_line=0):
     """R11: explicit copies for `&f32` closure parameters are NOT inserted here; kept as placeholder"""
     return text, []
@@ -510,9 +526,9 @@ def r11_deref_ref_operand(text, base_line=0):
 REWRITES = {
     "R1": r1_compound_assign, "R2": r2_unary_minus, "R3": r3_scale_call, "R6": r6_for_with_continue,
     "R7": r7_isqrt, "R8": r8_step_by, "R9": r9_consts, "R10": r10_tail_continue,
-    "R13": r13_panic_allowed, "R14": r14_panic_forbidden,
+    "R12": r12_enumerate, "R13": r13_panic_allowed, "R14": r14_panic_forbidden,
 }
-ORDER = ["R13", "R14", "R10", "R8", "R6", "R9", "R7", "R3", "R1", "R2"]
+ORDER = ["R13", "R14", "R12", "R10", "R8", "R6", "R9", "R7", "R3", "R1", "R2"]
 
 
 def apply_rewrites(text, names, base_line):
